@@ -232,6 +232,7 @@ func (c *conn) openRoundTrip() (proceed bool, drop bool) {
 		switch f.Kind {
 		case CrashBefore:
 			in.dead = true
+			c.db.fireDeath(in.name)
 			c.frozen = true
 			c.rtOpen = false
 			return false, false
@@ -268,6 +269,7 @@ func (c *conn) closeRoundTrip(failed bool) {
 	c.skipToSync = false
 	if c.rtWithhold {
 		c.inc.dead = true
+		c.db.fireDeath(c.inc.name)
 		c.frozen = true
 		c.out = c.out[:0]
 	}
